@@ -491,7 +491,18 @@ def c16(res, ctx):
         if m and int(m.group(1)) != len(pv):
             if k < MAXREP: res.violation('session', cases[ci], 'legal pv', ' '.join(pv) + ' from ' + f, 'property', 'reported pv is not a legal line from the searched position')
             k += 1
-    if ctx.get('have_engineline'):
+    # renderer: model vs the real ConsoleUciTx on generated messages; every rendering of a msg_ok message must be a valid line
+    import gen_consoletx
+    tx_cases = V.corpus('consoletx') + gen_consoletx.gen(rng, res.tier)
+    ti, tm = diff(res, 'consoletx', tx_cases, nontrivial=getattr(gen_consoletx, 'nontrivial', None))
+    okflags = V.run_model('consoletx-ok', tx_cases)
+    rendered = [(c, o) for c, o, f in zip(tx_cases, ti, okflags) if f == 'ok' and o not in ('NONE', 'PANIC', 'BADCASE')]
+    verdict = V.run_model('spec-engineline', [o for _, o in rendered])
+    for (c, o), v in zip(rendered, verdict):
+        if v == 'bad':
+            if k < MAXREP: res.violation('consoletx', c, 'a valid UCI engine-to-GUI line', o, 'spec', 'a message satisfying msg_ok was rendered to an invalid line')
+            k += 1
+    if True:
         so = V.run_model('spec-engineline', all_lines)
         res.count('spec-engineline', all_lines)
         for l, s, ci in zip(all_lines, so, owner):
